@@ -232,7 +232,7 @@ Print Assumptions entropy_relation.
 
 (** the quadruple returned by matchDeflagOrHyb(vw) satisfies T+ gamma+ = T- gamma-, whatever
     temperatures the solver produced *)
-Theorem returned_matching_conserves_entropy : forall e vw Tp Tm,
+Theorem returned_matching_conserves_entropy_for_any_vw : forall e vw Tp Tm,
   let vmsq := Rmin (vw ^ 2) (csqLowT e Tm) in
   0 < Tp -> 0 < Tm -> 0 <= vmsq < 1 -> 0 <= Tm ^ 2 - Tp ^ 2 * (1 - vmsq) ->
   let vp := fst (fst (fst (matchTail e vw Tp Tm))) in
@@ -250,7 +250,7 @@ Proof.
   split; [rewrite matchTail_value; reflexivity|].
   repeat split; try apply A; try apply B; try apply C; assumption.
 Qed.
-Print Assumptions returned_matching_conserves_entropy.
+Print Assumptions returned_matching_conserves_entropy_for_any_vw.
 
 (** ... and, when the temperatures are a zero of the generated 2x2 system, energy and
     momentum flux as well (the first sentence of the property) *)
@@ -425,6 +425,51 @@ Proof.
   - intros H v Hv. eapply static_whole_window; eassumption.
 Qed.
 Print Assumptions lte_one_whole_window_partial.
+
+(** the property's sentinel clauses speak about the entropy mismatch of the Tn-reaching
+    matching; the code tests the shock-temperature difference of the entropy-conserving one.
+    With the sign equivalence as an explicit hypothesis (validated by the harness on the scan
+    grid) the outcomes read as the property states them. *)
+Theorem lte_sentinel_bridge : forall o vMin vJ csTn (mism : Q -> Q),
+  (forall v, (0 < fst (diff o v))%Q <-> (0 < mism v)%Q) ->
+  (forall v, (fst (diff o v) < 0)%Q <-> (mism v < 0)%Q) ->
+  (lte o vMin vJ csTn = Static -> (mism vMin < 0)%Q) /\
+  (lte o vMin vJ csTn = Runaway ->
+     ((0 < shock o (vJ - lte_epsJ))%Q /\ rootShock o csTn vJ = None) \/
+     exists vmax, vmax_of lte_epsJ lte_epsShock o vJ csTn = Some vmax /\
+       ((0 < mism vmax)%Q \/ snd (diff o vmax) = false)) /\
+  (forall v, lte o vMin vJ csTn = Interior v ->
+     exists vmax, vmax_of lte_epsJ lte_epsShock o vJ csTn = Some vmax /\
+       ~ (0 < mism vmax)%Q /\ ~ (mism vMin < 0)%Q /\ v = rootDiff o vMin vmax).
+Proof.
+  intros o vMin vJ csTn mism Hp Hn. split; [|split].
+  - eapply static_mismatch; eassumption.
+  - eapply runaway_mismatch; eassumption.
+  - intros v. eapply interior_mismatch; eassumption.
+Qed.
+Print Assumptions lte_sentinel_bridge.
+
+(** Tn boundary at an interior result, under the contract that the root finder returns a zero
+    of the function it was given (validated: independent integrator at the returned velocity) *)
+Theorem lte_interior_reaches_Tn : forall o vMin vJ csTn,
+  (forall a b, (fst (diff o (rootDiff o a b)) == 0)%Q) ->
+  forall v, lte o vMin vJ csTn = Interior v -> (fst (diff o v) == 0)%Q.
+Proof. intros o vMin vJ csTn H v Hv. eapply interior_reaches_Tn; eassumption. Qed.
+Print Assumptions lte_interior_reaches_Tn.
+
+(** the flag consulted by findvwLTE: generated definition of Hydrodynamics.success *)
+Theorem success_definition : forall (hybr_ok : bool) (sumsq : R),
+  success_of hybr_ok sumsq = true <-> hybr_ok = true \/ sumsq < 1 / 1000000.
+Proof.
+  intros b s. unfold success_of. destruct b; cbn [orb].
+  - split; intro; [left; reflexivity|reflexivity].
+  - destruct (Rlt_dec s (1 / 1000000)) as [H|H]; split; intro A.
+    + right. lra.
+    + reflexivity.
+    + discriminate.
+    + destruct A as [A|A]; [discriminate|lra].
+Qed.
+Print Assumptions success_definition.
 
 (** non-vacuity of the hypotheses of the flux theorem: bag-like numbers
     p+ = T^4 - 1/10, e+ = 3 T^4 + 1/10, p- = (9/10) T^4, e- = (27/10) T^4; T+ = 1, T- = 99/100,
